@@ -861,9 +861,25 @@ async fn run(client_side: bool) {
         mon.borrow_mut().sync();
         mon.borrow().log.last().map(|s| s.seq).unwrap_or(0)
     };
-    let (bytes, then_eof, note) = hostile_bytes(kind, &mut ctx);
+    let (mut bytes, mut then_eof, note) = hostile_bytes(kind, &mut ctx);
     sim::append_config(&format!(" [{}]", note));
     sim::fault("hostile-action");
+    // one run in three: a second hostile action right behind the first (whatever the first did
+    // to the connection, the second arrives on the same stream)
+    let mut kinds = vec![kind];
+    if !then_eof && choice(3) == 0 {
+        let k2 = pick(&CATALOGUE);
+        let (ns, nl) = needs(k2);
+        if (!ns || want_session) && (!nl || want_links) {
+            let (b2, eof2, note2) = hostile_bytes(k2, &mut ctx);
+            bytes.extend_from_slice(&b2);
+            then_eof = eof2;
+            kinds.push(k2);
+            sim::append_config(&format!(" then {:?} [{}]", k2, note2));
+            sim::fault("second-hostile-action");
+        }
+    }
+    let has = |k: Hostile| kinds.contains(&k);
     let close_task_done: Slot<Result<(), String>> = Slot::new();
     let mut conn = Some(conn);
     if during_close {
@@ -890,10 +906,10 @@ async fn run(client_side: bool) {
     let peer_done: Slot<()> = Slot::new();
     let peer_stop: Rc<RefCell<bool>> = Rc::new(RefCell::new(false));
     {
-        let (pd, stop, ctx2) = (peer_done.clone(), peer_stop.clone(), ctx.clone());
+        let (pd, stop, ctx2, kinds2) = (peer_done.clone(), peer_stop.clone(), ctx.clone(), kinds.clone());
         sim::spawn("hostile-peer-serving", async move {
-            let mut closed_by_us = kind == Hostile::FramesAfterClose;
-            let mut ended_by_us = kind == Hostile::EndTwice;
+            let mut closed_by_us = kinds2.contains(&Hostile::FramesAfterClose);
+            let mut ended_by_us = kinds2.contains(&Hostile::EndTwice);
             let mut seen_transfers = 0u32;
             let mut seen_deliveries = 0u32;
             // a well-behaved peer keeps its window and its credit open: restate both (the hostile
@@ -907,7 +923,7 @@ async fn run(client_side: bool) {
                 }
                 peer::flow(&f)
             };
-            let restate = matches!(kind, Hostile::WeirdFlow) && ctx2.session;
+            let restate = kinds2.contains(&Hostile::WeirdFlow) && ctx2.session;
             if restate {
                 peer.send(ctx2.chan, &sane_flow(in_flight_transfers, in_flight_transfers)).await;
             }
@@ -941,7 +957,7 @@ async fn run(client_side: bool) {
                             let closed = p.field(1).as_bool().unwrap_or(false);
                             // the peer's handle for the endpoint's handle: links were attached in the order S, R
                             let ours = if h == 0 { 5 } else { 4 };
-                            if !(kind == Hostile::DetachTwice && ours == 4) {
+                            if !(kinds2.contains(&Hostile::DetachTwice) && ours == 4) {
                                 peer.send(f.channel, &peer::detach(ours, closed, None)).await;
                             }
                         }
@@ -1114,7 +1130,7 @@ async fn run(client_side: bool) {
         );
         return;
     }
-    if transport_gone && !after.close && !then_eof && kind != Hostile::FramesAfterClose && !during_close && close_result.is_ok() {
+    if transport_gone && !after.close && !then_eof && !has(Hostile::FramesAfterClose) && !during_close && close_result.is_ok() {
         sim::violation(
             "shutdown-invisible-to-application",
             format!("the endpoint dropped the transport without a close frame after the hostile action; connection.close() returned Ok and {} calls reported an error", errors_seen),
